@@ -232,7 +232,8 @@ class Importance(CellModifierInput):
                 to_remove = set()
                 for other_part in other_particles:
                     if other_part != particle:
-                        if math.isclose(
+                        # a particle that has been printed already must not be printed again
+                        if other_part not in particles_printed and math.isclose(
                             self[particle],
                             self[other_part],
                             rel_tol=rel_tol,
